@@ -10,9 +10,9 @@ from .core import ToolError, log
 # math  : function-level trace validation (real pure functions, production scale)
 # world : system-level trace validation (real contracts in cw-multi-test)
 PROPS = {
-    'C01': dict(mc=[('MC_Pool', None), ('MC_Math', ['swap'])], math=['swap'], world=['random', 'withdraw', 'matrix']),
+    'C01': dict(mc=[('MC_Pool', None), ('MC_Math', ['swap'])], math=['swap'], world=['kf1', 'random', 'withdraw', 'matrix']),
     'C02': dict(mc=[('MC_Pool', None)], world=['matrix', 'random']),
-    'C03': dict(mc=[('MC_Pool', None)], world=['random', 'withdraw', 'matrix']),
+    'C03': dict(mc=[('MC_Pool', None)], world=['kf1', 'random', 'withdraw', 'matrix']),
     'C04': dict(mc=[('MC_Pool', None), ('MC_Math', ['withdraw'])], world=['random', 'withdraw']),
     'C05': dict(mc=[('MC_Pool', None), ('MC_Math', ['share', 'first'])], math=['share'], world=['random', 'matrix']),
     'C06': dict(mc=[('MC_Pool', None), ('MC_Math', ['swap'])], math=['swap'], world=['random']),
@@ -37,6 +37,7 @@ WORLD_N = {
     'random':   {'quick': (14, 80), 'thorough': (150, 120)},
     'matrix':   {'quick': (3, 0),   'thorough': (30, 0)},
     'routes':   {'quick': (3, 0),   'thorough': (30, 0)},
+    'kf1':      {'quick': (2, 0),   'thorough': (20, 0)},
     'registry': {'quick': (8, 40),  'thorough': (80, 40)},
     'withdraw': {'quick': (16, 0),  'thorough': (160, 0)},
 }
